@@ -145,7 +145,7 @@ def simple_flow(ctx, of, i, pdict):
   return m
 
 
-def h_insert(ctx, n):
+def h_insert(ctx, n, prefixes=False):
   """FlowTable.add_entry alone: n entries with symbolic priorities, each exact-match or wildcarded (solver-chosen), inserted one after the other:
   after every insertion the table holds exactly the inserted entries, once each, in descending effective priority (exact entries first)."""
   of = ctx.pox('pox.openflow.libopenflow_01')
@@ -156,12 +156,18 @@ def h_insert(ctx, n):
   entries = []
   for i in range(n):
     m = of.ofp_match()
-    exact = bool(ctx.bool('exact%d' % i))
-    if exact:
+    kind = int(ctx.int('kind%d' % i, 0, 2 if prefixes else 1))       # 0 wildcarded (in_port only), 1 exact, 2 every single-bit field given but nw_src with a symbolic prefix length
+    exact = kind == 1
+    if kind:
       m.in_port = i + 1; m.dl_src = addrs.EthAddr(bytes([2, 0, 0, 0, 0, i])); m.dl_dst = addrs.EthAddr(bytes([2, 0, 0, 0, 1, i]))
       m.dl_vlan = 0xffff; m.dl_vlan_pcp = 0; m.dl_type = 0x0800; m.nw_tos = 0; m.nw_proto = 6
       m.nw_src = addrs.IPAddr('10.0.0.%d' % (i + 1)); m.nw_dst = addrs.IPAddr('10.0.1.%d' % (i + 1)); m.tp_src = 1000 + i; m.tp_dst = 80
-      ctx.witness('exact')
+      if kind == 2:
+        bits = [0, 1, 31, 32][int(ctx.int('bitsel%d' % i, 0, 3))]
+        m.nw_src = (addrs.IPAddr('10.0.0.%d' % (i + 1)), bits)
+        exact = bits == 32                         # only a /32 leaves nothing wildcarded
+        if 0 < bits < 32: ctx.witness('prefix')
+      if exact: ctx.witness('exact')
     else:
       m.in_port = i + 1
     prio = ctx.int('prio%d' % i, 0, 0xffff)
@@ -338,7 +344,7 @@ def obligations(tier):
     Obligation('O2_extract', h_extract, [dict(kind=k, tagged=t) for k in ('ip', 'arp', 'other') for t in (False, True)] + [dict(kind='llc', tagged=False), dict(kind='snap', tagged=False)],
                witnesses=('extracted', 'fragment', 'ports', 'icmp', 'snap-oui0'), max_decisions=20000,
                desc='from_packet field extraction vs byte-offset extractor: VLAN tag, ARP, ICMP type/code, fragments (MF or offset) zero the ports'),
-    Obligation('O3_insert', h_insert, [dict(n=k) for k in ((3, 4, 5) if not thorough else (3, 4, 5, 6, 7))], witnesses=('done', 'exact'), max_decisions=20000,
+    Obligation('O3_insert', h_insert, [dict(n=3, prefixes=True)] + [dict(n=k) for k in ((3, 4, 5) if not thorough else (3, 4, 5, 6, 7))], witnesses=('done', 'exact', 'prefix'), max_decisions=20000,
                desc='add_entry binary insertion: table sorted by descending effective priority and complete after every one of n insertions (symbolic priorities, exact/wildcarded)'),
     Obligation('O3_lookup', h_lookup, [dict(n=k) for k in range(1, (3 if thorough else 2) + 1)], witnesses=('hit', 'miss'),
                desc='table sorted after every add_entry; lookup returns a matching entry of maximal effective priority; miss iff none'),
